@@ -281,6 +281,7 @@ type c29env struct {
 	whs    *web_monitor.WebHandlers
 	reload func(url.Values) error
 	local  *net.TCPAddr
+	br     *bfe_bufio.Reader // reused across cases (Reset), as bfe's BufioCache does
 }
 
 func c29write(t *testing.T, p, s string) {
@@ -382,7 +383,12 @@ func c29run(e *c29env, p *c29peer, raw []byte, cd *c29conds) (*c29obs, error) {
 	}
 
 	// conn.readRequest
-	req, err := bfe_http.ReadRequest(bfe_bufio.NewReader(bytes.NewReader(raw)), 8192)
+	if e.br == nil {
+		e.br = bfe_bufio.NewReader(bytes.NewReader(raw))
+	} else {
+		e.br.Reset(bytes.NewReader(raw))
+	}
+	req, err := bfe_http.ReadRequest(e.br, 8192)
 	if err != nil {
 		return nil, fmt.Errorf("ReadRequest: %v", err)
 	}
